@@ -79,8 +79,9 @@ def main():
         if ok and a.keep_as:
             dst = os.path.join(HERE, "seeded", a.keep_as)
             os.makedirs(dst, exist_ok=True)
-            shutil.copy(patch, os.path.join(dst, "patch.diff"))
-            shutil.copy(demo, os.path.join(dst, "demo.py"))
+            for src_f, name in ((patch, "patch.diff"), (demo, "demo.py")):
+                if os.path.abspath(src_f) != os.path.abspath(os.path.join(dst, name)):
+                    shutil.copy(src_f, os.path.join(dst, name))
             meta.update({"property": a.prop, "kept_as": a.keep_as, "verif_ran": out})
             json.dump(meta, open(os.path.join(dst, "meta.json"), "w"), indent=1)
         return 0 if ok else 1
